@@ -4,13 +4,30 @@ from .. import cells
 
 
 def check(run, only=None):
-    arms, hs = cells.run_cells(run, "c02", only=only)
+    from .. import arms as armslices
+    from . import c05
+    apre, ahs = armslices.gen(run, run.tier, run.seed, results_only=True)
+
+    def arm_results(run, arms_):
+        # composition: each strict arm returns its function's result on the sub-results in field order (see vlib/arms.py)
+        out = []
+        for h in ahs:
+            if "_vals" not in h.name and not h.name.startswith(("arm_If", "arm_Equals", "arm_NotEquals")):
+                continue
+            if run.tier == "quick" and ("fld1" not in h.body or "_vals" not in h.name):
+                continue    # unary and lazy arms: decided under C05 on every run; here only in the thorough tier
+            h.spec = cells.Spec("", quick=h.quick)
+            h.variant, h.tags = h.meta["node"], ("arm",)
+            out.append(h)
+        return out
+    arms, hs = cells.run_cells(run, "c02", only=only, extra=arm_results, extra_preamble=c05.PREAMBLE + apre)
     run.assumptions += cells.COMMON_ASSUMPTIONS + [
         "Decimal arithmetic / comparison / rounding cells: rust_decimal's operation is replaced by a recorder (which operation, which operands, "
         "which order, result passed through); the *_scale0_real cells run rust_decimal's real code at scale 0 against integer arithmetic",
         "Float `/` and `%`: decided by identities on constrained operands, not bit-exact on all pairs (CBMC's divider/fmod give no verdict)",
     ]
-    run.outside_claim += cells.OUTSIDE + ["an eval_rec arm rewired to a different function is not decided by the solver"]
+    run.outside_claim += cells.OUTSIDE + ["the `match` dispatch of eval_rec (pattern -> arm) is read from the source; each arm's right-hand side is "
+                                          "executed on a verbatim copy (arm_* obligations); and/or, lists, maps, calls are outside"]
     return run.finish(rule="one Kani harness per supported cell of the reference operator table (node kind x operand tag tuple), asserting the "
                            "exact result (value or error class) for every payload; non-trivial = CBMC generated and discharged checks and all "
                            "vacuity covers were satisfiable; distinct = distinct cell ids")
